@@ -3,13 +3,13 @@ package main
 // Property definitions: which obligations make up each property (DESIGN.md section 5).
 var propDefs = map[string]*PropDef{
 	"C01": {
-		ID: "C01", Kinds: []string{"bounds", "slice", "divzero", "typeassert", "panic", "makeslice", "decreases"}, Funcs: "all", Floor: 500,
+		ID: "C01", Kinds: []string{"bounds", "slice", "divzero", "typeassert", "panic", "makeslice", "decreases", "nilderef", "nonnil"}, Funcs: "all", Floor: 500,
 		Unmech: []string{
 			"recursion: termination of the mutually recursive parser and evaluator functions (bounded by the token list / the acyclic compiled tree) is argued, not proved; the macro recursion guard is C13",
 			"a panic-free, terminating execution of every function implies the same for whole compilations/executions by induction over the call tree",
 		},
 		Assume: []string{
-			"nil dereferences are not an obligation class",
+			"nil dereferences are an obligation class only for pointers that may be nil by origin (results of package functions with a `return nil`, map lookups, failed comma-ok assertions, nil constants); pointers of any other origin (parameters, fields and elements loaded from the heap, results of library calls) are assumed non-nil where they are dereferenced",
 			"stack depth and memory exhaustion for input-proportional recursion and allocation are not modelled",
 			"reflect, strings, strconv, regexp, fmt, sort behave as their (assumed) contracts say; panics inside user callbacks are external",
 			"the lorem word/paragraph tables (split from a constant text) are non-empty",
